@@ -794,7 +794,7 @@ def judge(what, case, impl, ans, out):
                 sig, wid = impl["sigs"].get(s["name"], ({}, []))
                 exp = expected_signatures(s["styled"], impl["styles"])
                 if exp != sig:
-                    diff = sorted(set(exp.items()) ^ set(sig.items()))[:6]
+                    diff = sorted(set(exp.items()) ^ set(sig.items()), key=repr)[:6]
                     out.mismatch("styled cells of the saved workbook vs Grid.styleTargets", case,
                                  {"sheet": s["name"], "impl_minus_model_or_back": [list(map(str, d)) for d in diff]},
                                  len(s["styled"]))
